@@ -67,6 +67,10 @@ def scenario(draw):
         kind, what = draw(kinds_for(flv))
         reg = "pre" if threads_together else draw(st.sampled_from(regs))
         delay = 5 if same_instant else draw(st.sampled_from([0, 0, 1, 5, 20]))
+        sync_raise = flv != "threading" and kind in ("exc", "base") and draw(st.integers(0, 4)) == 0
+        if sync_raise and draw(st.integers(0, 2)) == 0:
+            what = "StopIteration"  # raised by a plain callable it is a real StopIteration (a coroutine cannot raise one)
+            kind = "exc"
         p = {"id": i + 1, "flavour": flv, "role": "failing", "kind": kind,
              "program": [["wait", "go"]] if threads_together else [["sleep", delay]] if delay else [], "end": ["return", what] if kind == "ret" else ["raise", what]}
         if reg in ("pre", "pre-service"):
@@ -82,6 +86,8 @@ def scenario(draw):
             p["reg"] = {"how": "from", "parent": parent["id"], "parent_flavour": pflv}
             payloads.append(parent)
         p["regmode"] = reg
+        if sync_raise:
+            p["callable"] = "sync-raise"
         payloads.append(p)
     drivers[0].sort(key=lambda s: s["at_ms"])
     if threads_together:
